@@ -74,26 +74,26 @@ def r1(ctx):
   ctx.ob('C14.R1', f, 'payload = stream.getvalue()', bool(pd), 'payload is not the serialized stream',
          'the bytes sent must be the serialized call')
   # reply: size from unpack of readAll(4), body readAll(size)
-  for ev, ex in enum_paths(ctx, g):
-    rd = [e.node for e in ev if e.kind == 'call' and call_attr(e.node) == 'readAll']
-    if len(rd) < 2:
-      continue
-    a, b = rd[0], rd[1]
-    gdefs = local_defs(g.node)
-    oka = bool(a.args) and isinstance(a.args[0], ast.Constant) and a.args[0].value == 4
-    # b's size is the name unpacked from a
-    okb = False
-    if b.args and isinstance(b.args[0], ast.Name):
-      for st in walk_no_nested(g.node):
-        if isinstance(st, ast.Assign) and isinstance(st.value, ast.Call) and call_attr(st.value) == 'unpack' and st.value.args[1:] and st.value.args[1] is a:
-          t = st.targets[0]
-          if isinstance(t, ast.Tuple) and len(t.elts) == 1 and isinstance(t.elts[0], ast.Name) and t.elts[0].id == b.args[0].id:
-            okb = True
+  why = ('the reply body is exactly the number of bytes announced by the 4-byte prefix, and both must be read with the '
+         'accumulate loop (readAll): a single read may return fewer bytes than asked')
+  un = [st for st in walk_no_nested(g.node) if isinstance(st, ast.Assign) and isinstance(st.value, ast.Call) and call_attr(st.value) == 'unpack']
+  if len(un) != 1:
+    ctx.ob('C14.R1', g, 'reply = readAll(4) -> unpack -> readAll(size)', False, 'expected exactly one unpack of the reply length, found %d' % len(un), why)
+  else:
+    u = un[0]
+    src = u.value.args[1] if len(u.value.args) > 1 else None
+    fmt = parse_format(u.value.args[0]) if u.value.args else None
+    oka = (isinstance(src, ast.Call) and call_attr(src) == 'readAll' and U(src.func.value).endswith('_socket') and len(src.args) == 1
+           and isinstance(src.args[0], ast.Constant) and src.args[0].value == 4
+           and fmt is not None and [(x.code, x.count) for x in fmt.fields] == [('i', 1)])
+    t = u.targets[0]
+    name = t.elts[0].id if isinstance(t, ast.Tuple) and len(t.elts) == 1 and isinstance(t.elts[0], ast.Name) else None
+    body = [c for c in walk_no_nested(g.node) if isinstance(c, ast.Call) and call_attr(c) in ('readAll', 'read', 'recv')
+            and c is not src and c.lineno >= u.lineno]
+    okb = (name is not None and len(body) == 1 and call_attr(body[0]) == 'readAll' and len(body[0].args) == 1
+           and isinstance(body[0].args[0], ast.Name) and body[0].args[0].id == name)
     ctx.ob('C14.R1', g, 'reply = readAll(4) -> unpack -> readAll(size)', oka and okb,
-           'reply framing reads %s then %s' % (U(a), U(b)),
-           'the reply body is exactly the number of bytes announced by the 4-byte prefix')
-    break
-
+           'reply framing reads %s then %s' % (U(src) if src is not None else None, [U(b) for b in body]), why)
 
 def r2(ctx):
   prog = ctx.prog
